@@ -12,6 +12,7 @@ package http2
 //     rest of the body is delivered (in the deterministic schedule of thread mode).
 
 import (
+	"golang.org/x/net/http2/hpack"
 	"io"
 	"net/http"
 	"sync/atomic"
@@ -63,9 +64,16 @@ type svResp struct {
 
 func svCollect(out []byte, id uint32) (r svResp) {
 	recs, _ := svParse(out)
+	// HPACK state is per connection: one decoder sees every header block the server sent, in order
+	dec := hpack.NewDecoder(4096, nil)
 	for _, f := range recs {
 		if f.typ == FrameGoAway {
 			r.goaway = true
+		}
+		var fields []hpack.HeaderField
+		var derr error
+		if f.typ == FrameHeaders {
+			fields, derr = dec.DecodeFull(f.payload)
 		}
 		if f.id != id {
 			continue
@@ -73,8 +81,7 @@ func svCollect(out []byte, id uint32) (r svResp) {
 		switch f.typ {
 		case FrameHeaders:
 			r.headers++
-			fields, err := svDecode(f.payload)
-			if err != nil {
+			if derr != nil {
 				continue
 			}
 			for _, x := range fields {
